@@ -1567,7 +1567,6 @@ func genRules(rng *rand.Rand, name string) *Plan {
 	return p
 }
 
-
 // role / node lifecycle scenarios (C16 lifecycle half for roles and nodes, C14 grant clause): audit nodes are
 // registered, updated, logged out; audit admins are registered bound to a node, paused when their node goes, bound to
 // another node; a governance admin is registered, frozen, activated, logged out; proposals are approved or rejected,
@@ -1603,6 +1602,16 @@ func genRoles(rng *rand.Rand, name string) *Plan {
 			vote(np-1, rng.Intn(5) > 0)
 			open = open[:len(open)-1]
 		}
+	}
+	// a third of them goes on: second node, first node logged out (the audit admin is paused), the admin bound again
+	if len(open) == 0 && rng.Intn(3) == 0 {
+		submit("RegisterNode", "@nvp2", "nvpNode", "", "u64:0", "node2", "chainA", "r")
+		vote(np-1, true)
+		submit("LogoutNode", "@nvp1", "r")
+		vote(np-1, rng.Intn(5) > 0)
+		submit("BindRole", "@aud1", "@nvp2", "r")
+		vote(np-1, rng.Intn(4) > 0)
+		open = nil
 	}
 	nsteps := 8 + rng.Intn(10)
 	for i := 0; i < nsteps; i++ {
